@@ -73,9 +73,28 @@ def multi_segment_project(rng):
     return "valid-multi-segment-lines", {"main.asm": "\n".join(main) + "\n", "shared.asm": shared}
 
 
+def same_stem_project(rng):
+    """Source files that share a file stem (same name in two directories, or names that differ only in the extension): what is
+    written for them (listings are named after the stem) must not depend on a hash order."""
+    n = rng.randrange(2, 5)
+    dirs = rng.sample(["a", "b", "lib", "gfx", "snd/sub"], n) if rng.random() < 0.6 else None
+    names = ["%s/foo.asm" % d for d in dirs] if dirs else rng.sample(["foo.asm", "foo.inc", "foo.s", "foo.a65", "foo.mos"], n)
+    files = {}
+    main = []
+    for i, name in enumerate(names):
+        files[name] = "f%d: lda #%d\n    %s\n" % (i, rng.randrange(256), rng.choice(["rts", "nop", ".byte %d" % rng.randrange(256), "sta $d020"]))
+        main.append('.import * from "%s"' % name)
+    rng.shuffle(main)
+    files["main.asm"] = "\n".join(main) + "\nnop\n"
+    return "valid-same-stem-" + ("directories" if dirs else "extensions"), files
+
+
 def valid_project(rng):
-    if rng.random() < 0.25:
+    r = rng.random()
+    if r < 0.25:
         return multi_segment_project(rng)
+    if r < 0.4:
+        return same_stem_project(rng)
     for _ in range(20):
         prog = P.generate(rng, {"p_import": 1.0, "p_macro": 0.7, "p_segments": 0.3, "max_bytes": 300, "top_stmts": 10})
         if prog.base_pc != 0x2000 and not prog.has_segments:
@@ -91,9 +110,10 @@ def valid_project(rng):
 def snapshot(tp, r):
     out = {"exit": str(r["rc"]), "stdout": r["out"]}
     tdir = os.path.join(tp.dir, "target")
-    if os.path.isdir(tdir):
-        for fn in sorted(os.listdir(tdir)):
-            out["file:" + fn] = open(os.path.join(tdir, fn), "rb").read().decode("latin1")
+    for base, _, fns in sorted(os.walk(tdir)):
+        for fn in sorted(fns):
+            full = os.path.join(base, fn)
+            out["file:" + os.path.relpath(full, tdir)] = open(full, "rb").read().decode("latin1")
     return out
 
 
